@@ -1,6 +1,7 @@
 """C18 — built-in expressions and helpers conform to their reference definitions.
 
-proof:           lean/PPProofs/Props/C18.lean: for each Regex/Word based built-in, `Regex.parse <live pattern> = some AST`
+proof:           lean/PPProofs/Props/C18.lean (+ C18More.lean: ipv4_address, identifier, ieee_float; C18Datetime.lean:
+                 iso8601_datetime): for each Regex/Word based built-in, `Regex.parse <live pattern> = some AST`
                  (generated fact, lean/PPProofs/Props/Gen/Patterns.lean is rewritten from the live package on every
                  run) and an unbounded language theorem `AST.Accepts s <-> <documented syntax> s`.
 correspondence:  the Lean regex engine (PPModel/Base/Regex.lean: parser + backtracking matcher, `m` with captures and
@@ -37,11 +38,24 @@ META = dict(
          "sci_real_language (+ sci_body_language, ureal_first_sound/complete: optional sign, digits+exponent or real with "
          "optional exponent) - the "
          "pattern read from the live package parses to the pinned AST and the AST's preferred re.match consumes the whole "
-         "string iff the string has the documented syntax. ipv4_language_partial proves ONLY the soundness half for "
-         "ipv4_address (accepted => four octets of the pattern's exact policy, 1-2 digits or 1dd / 2[0-4]d / 25[0-5], "
-         "separated by dots); its converse (every such string is accepted: the preferred match is the full one) is "
-         "missing. For ieee_float, identifier, "
-         "mac_address (back-reference: needs capture-aware lemmas about the matcher `m`), iso8601_datetime, number, "
+         "string iff the string has the documented syntax. Also full strength (PPProofs/Props/C18More.lean, helper lemmas "
+         "PPProofs/Lemmas/RegexIpv4.lean): ipv4_language (accepted <=> four octets of the pattern's exact policy, 1-2 "
+         "digits or 1dd / 2[0-4]d / 25[0-5], separated by dots; = ipv4_language_partial for => and ipv4_complete for <=: "
+         "the preferred backtracking match goes through the whole of each dot-terminated octet (mem_octet_complete + "
+         "head?_flatMap_unique) and the preferred match of the last octet is the whole octet (octet_head_enum, kernel "
+         "evaluation over all digit strings of length <= 3)) and identifier_language (accepted <=> one character of the "
+         "pattern's initial class - ASCII letters, '_', U+00AA U+00B5 U+00BA U+00C0-D6 U+00D8-F6 U+00F8-FF - followed by "
+         "characters of the body class = initial class + digits + U+00B7; the classes are those of the live reString, "
+         "nothing is claimed about str.isidentifier), and ieee_float_language (accepted <=> optional sign, then an "
+         "fnumber body with e/E exponent, or nan / inf / infinity in any letter case; ieee_sim: the (?i:...) AST has the "
+         "same matches as the fnumber-shaped AST because its character sets have the same members; helper lemmas "
+         "PPProofs/Lemmas/RegexCI.lean; case folding is the MODEL's ASCII folding - CPython's extra IGNORECASE "
+         "equivalences for str patterns, e.g. U+0131 dotless i / U+0130 for 'i', are not modelled, the statement is about "
+         "ASCII text). Full strength too (PPProofs/Props/C18Datetime.lean): iso8601_datetime_language (accepted <=> "
+         "yyyy-mm-dd, 'T' or a blank, hh:mm, then optional seconds - nothing | ':' | ':ss' | ':ss.' digits* - then optional "
+         "zone - nothing | 'Z' | +-hhmm | +-hh:mm; digits only, no range checks on the fields, exactly as the pattern; "
+         "isoDatetime_head: the preferred match is the deterministic prefix followed by the greedy tails secFn/tzFn). For "
+         "mac_address (back-reference: needs capture-aware lemmas about the matcher `m`), number, "
          "fraction, ipv6 parts and the quoted-string built-ins only the generated-fact obligations (*_pattern_ast, "
          "*_leaves_fact, *_quoted_string_fact: live pattern = pinned AST, checked by the kernel on every run) are proved; "
          "their language theorems are MISSING and acceptance is decided by the oracle (python transcription of the syntax) on "
@@ -90,6 +104,10 @@ THEOREMS = [
     "PP.C18.uuid_language", "PP.C18.iso8601_date_language", "PP.C18.fnumber_language", "PP.C18.fnumber_body_language",
     "PP.C18.expo_accepts",
     "PP.C18.ipv4_language_partial", "PP.C18.mem_octet",
+    "PP.C18.ipv4_language", "PP.C18.ipv4_complete", "PP.C18.mem_octet_complete", "PP.C18.octet_head_enum",
+    "PP.C18.identifier_language",
+    "PP.C18.ieee_float_language", "PP.C18.ieee_body_language", "PP.C18.ieee_sim",
+    "PP.C18.iso8601_datetime_language", "PP.C18.isoDatetime_head", "PP.C18.preFn_some",
     "PP.C18.sci_real_language", "PP.C18.sci_body_language", "PP.C18.ureal_first_sound", "PP.C18.ureal_first_complete",
     "PP.C18.sci_real_pattern_ast", "PP.C18.fnumber_pattern_ast",
     "PP.C18.ieee_float_pattern_ast", "PP.C18.identifier_pattern_ast", "PP.C18.ipv4_address_pattern_ast",
@@ -99,6 +117,8 @@ THEOREMS = [
 ] + cq.THEOREMS + chh.THEOREMS
 
 GEN_REL = "PPProofs/Props/Gen/Patterns.lean"
+DATETIME_MODULE = "PPProofs.Props.C18Datetime"   # iso8601_datetime_language (imports Props/C18)
+MORE_MODULE = "PPProofs.Props.C18More"   # ipv4/identifier/ieee_float language theorems (imports Props/C18)
 
 
 # ---------------------------------------------------------------------------------------------
@@ -1422,7 +1442,7 @@ def run(ctx):
     gen_facts = precheck_facts(ctx, facts)
     qfacts = cq.facts_for_build(ctx, pp, lean_str)
     ok = ctx.proof_leg("PPProofs.Props.C18", THEOREMS,
-                       generated={GEN_REL: gen_patterns_lean(gen_facts), cq.GEN_REL: qfacts}, extra_modules=[cq.MODULE, chh.MODULE])
+                       generated={GEN_REL: gen_patterns_lean(gen_facts), cq.GEN_REL: qfacts}, extra_modules=[cq.MODULE, chh.MODULE, MORE_MODULE, DATETIME_MODULE])
     ok = ok and len(ctx.broken) == n_broken
     ctx.notes["generated_facts"] = {n: lv[:4] for n, lv in facts.items()}
     ctx.rule.append(
